@@ -231,6 +231,39 @@ for _id, _fn, _claim, _fns in ROUTES:
     V(_id, "routes", _claim, _fns, fn=_fn, witness="x_routes")
 ROUTES_V = [r[0] for r in ROUTES]
 
+RC = "modulo the reader-primitive contract (verus/prelude.rs section reader; established for fixed-size cursors by k_reader_*)"
+VDEC = [
+ ("v_dec_userdata", "dec_userdata", "parse_userdata_chunk", "parse_userdata_chunk for EVERY payload: Ok iff flags/text/colour fit and the text is UTF-8; text iff bit 0, colour iff bit 1, as stored", ["user_data::parse_userdata_chunk"]),
+ ("v_dec_blend_mode", "dec_layer", "parse_blend_mode", "parse_blend_mode: Ok(mode numbered id) iff id <= 18", ["layer::parse_blend_mode"]),
+ ("v_dec_layer_type", "dec_layer", "parse_layer_type", "parse_layer_type: 0 image, 1 group, 2 tilemap(le_u32) or Err if short, else Err", ["layer::parse_layer_type"]),
+ ("v_dec_layer", "dec_layer", "layer::parse_chunk", "layer::parse_chunk for EVERY payload and name length: Ok iff layout fits, enums in range, name UTF-8; every stored attribute equals the layout read", ["layer::parse_chunk"]),
+ ("v_dec_anim_dir", "dec_tags", "parse_animation_direction", "parse_animation_direction: Ok iff id <= 2", ["tags::parse_animation_direction"]),
+ ("v_dec_tags", "dec_tags", "tags::parse_chunk", "tags::parse_chunk for EVERY payload and ANY number of tags: one tag per declared entry, attributes as stored, in file order; Err iff some tag is short / bad direction / bad UTF-8", ["tags::parse_chunk"]),
+ ("v_dec_ext", "dec_ext", "ExternalFile::parse_chunk", "ExternalFile::parse_chunk for EVERY payload and ANY declared count: one entry per declared file with id and name in file order; no capacity blow-up", ["external_file::ExternalFile::parse_chunk", "external_file::ExternalFile::new", "external_file::ExternalFileId::new"]),
+ ("v_dec_cel_common", "dec_small", "CelCommon::parse", "CelCommon::parse: layer index, signed x / y, opacity at offsets 0/2/4/6", ["cel::CelCommon::parse"]),
+ ("v_dec_image_size", "dec_small", "ImageSize::parse", "ImageSize::parse: width, height words", ["cel::ImageSize::parse"]),
+ ("v_pixel_count", "dec_small", "pixel_count", "ImageSize::pixel_count == w*h, no overflow", ["cel::ImageSize::pixel_count"]),
+ ("v_dec_slice9", "dec_small", "Slice9::read", "Slice9::read: signed centre, unsigned size, in order", ["slice::Slice9::read"]),
+ ("v_dec_slice_key", "dec_small", "SliceKey::read", "SliceKey::read for all flags: frame, signed origin, size, 9-slice iff bit 0, pivot iff bit 1, each at its layout offset", ["slice::SliceKey::read"]),
+ ("v_dec_bitmask", "dec_small", "TileBitmaskHeader::parse", "TileBitmaskHeader::parse: four dwords in order", ["tilemap::TileBitmaskHeader::parse"]),
+ ("v_check_chunk_bytes", "dec_small", "check_chunk_bytes", "check_chunk_bytes: Ok iff 6 <= size <= bytes available", ["parse::check_chunk_bytes"]),
+ ("v_scale_6bit", "dec_small", "scale_6bit_to_8bit", "scale_6bit_to_8bit: Err iff >= 64 else 4c + c/16", ["palette::scale_6bit_to_8bit"]),
+ ("v_dec_cp_type", "dec_colorprofile", "parse_color_profile_type", "parse_color_profile_type: Ok iff id <= 2", ["color_profile::parse_color_profile_type"]),
+ ("v_dec_colorprofile", "dec_colorprofile", "color_profile::parse_chunk", "color_profile::parse_chunk for EVERY payload: Ok iff >= 16 bytes, type none/sRGB, fixed-gamma flag clear (ICC, unknown types, fixed gamma refused)", ["color_profile::parse_chunk"]),
+ ("v_dec_tilemap", "dec_cel", "TilemapData::parse_chunk", "TilemapData::parse_chunk: any bits-per-tile other than 32 is refused; Ok => header fields as stored and tiles.len() == w*h", ["tilemap::TilemapData::parse_chunk"]),
+ ("v_dec_cel_content", "dec_cel", "CelContent::parse", "CelContent::parse: cel type > 3 refused; type 1 = Linked(le_u16); types 0/2 raw image with the stored size; type 3 tilemap", ["cel::CelContent::parse"]),
+ ("v_dec_cel", "dec_cel", "cel::parse_chunk", "cel::parse_chunk for EVERY payload: header (layer, signed offset, opacity) as stored, content by cel type, unknown types refused, no user data", ["cel::parse_chunk"]),
+ ("v_bytes_per_pixel", "dec_tileset", "bytes_per_pixel", "PixelFormat::bytes_per_pixel 4/2/1", ["file::PixelFormat::bytes_per_pixel"]),
+ ("v_dec_tileset_ref", "dec_tileset", "ExternalTilesetReference::parse", "ExternalTilesetReference::parse: external file id, tileset id", ["tileset::ExternalTilesetReference::parse"]),
+ ("v_dec_tileset", "dec_tileset", "Tileset::parse_chunk", "Tileset::parse_chunk for EVERY payload: header fields as stored, tile size >= 1 enforced, external reference iff flag 1, pixels iff flag 2; size product without overflow", ["tileset::Tileset::parse_chunk"]),
+ ("v_palette_color", "dec_palette", "color", "ColorPalette::color(i) is the entry stored for index i, None if absent", ["palette::ColorPalette::color"]),
+ ("v_validate_indexed", "dec_palette", "validate_indexed_pixels", "validate_indexed_pixels: Ok iff EVERY pixel index is a palette entry (any buffer length, any - sparse - palette)", ["palette::ColorPalette::validate_indexed_pixels"]),
+ ("v_dec_palette", "dec_palette", "palette::parse_chunk", "palette::parse_chunk for EVERY payload and ANY index range (incl. 0..=u32::MAX): exactly the indices first..=last are present with stored RGBA and name (iff flag); Err iff last<first or an entry is short / bad UTF-8", ["palette::parse_chunk"]),
+]
+for _id, _unit, _fn, _claim, _fns in VDEC:
+    V(_id, _unit, _claim + " - " + RC if _unit != "dec_palette" or _fn == "palette::parse_chunk" else _claim, _fns, fn=_fn, witness="x_decoder_contracts")
+VDEC_IDS = [v[0] for v in VDEC]
+
 BLEND_LEAVES = ["k_mul_un8", "k_div_un8", "k_blend8"] + ["k_ch_" + m for m in ["multiply", "screen", "overlay", "darken", "lighten", "color_dodge",
                 "color_burn", "hard_light", "difference", "exclusion", "divide"]] + ["k_ch_soft_light_range", "k_merge", "k_normal_alpha",
                 "k_normal_r", "k_normal_g", "k_normal_b", "k_normal_full", "k_pack_i32", "k_pack_f64"]
@@ -265,35 +298,36 @@ def prop(id, level, obls, explanation, **kw):
     d.update(kw)
     PROPS[id] = d
 
-prop("C01", "proof", ["k_parse_chunk_type", "k_parse_pixel_format", "k_check_chunk_bytes", "k_pixel_format_accessors"] + READER + LAYER_DEC + TAGS_DEC + SLICE_DEC
+prop("C01", "proof", ["v_dec_layer", "v_dec_layer_type", "v_dec_blend_mode", "v_dec_tags", "v_dec_anim_dir", "v_dec_ext", "v_dec_slice_key", "v_dec_slice9", "v_dec_palette", "v_palette_color", "v_dec_tileset", "v_dec_tileset_ref", "v_check_chunk_bytes"]
+     + ["k_parse_chunk_type", "k_parse_pixel_format", "k_check_chunk_bytes", "k_pixel_format_accessors"] + READER + LAYER_DEC + TAGS_DEC + SLICE_DEC
      + ["k_palette_chunk_20", "k_palette_chunk_26", "k_palette_chunk_35"] + EXT_DEC + TS_DEC + ["v_num_frames", "v_num_layers", "v_file_layer", "v_file_frame", "x_decoder_contracts", "x_roundtrip_structure", "x_header_extremes"],
-     "Leaf decoders are under contract (enum decoders proved over their whole domain; chunk decoders field-by-field against the file-format layout on fixed payload sizes with symbolic contents). The composition (header, frame dispatch, accessors) cannot be executed symbolically by Kani nor extracted for Verus and is a bounded stand-in (x_*).")
+     "Chunk decoders (layer, tags, external files, palette, tileset header, slice keys) are Verus contracts on the real text for EVERY payload length and entity count, field by field against the file-format layout, modulo the reader-primitive contract; the reader primitives and the enum decoders are Kani contracts (enums over their whole domain, primitives and a few decoder shapes on fixed payload sizes with symbolic contents). The composition (header, frame dispatch, accessors) cannot be executed symbolically by Kani nor extracted for Verus and is a bounded stand-in (x_*).")
 prop("C02", "proof", ["v_write_raw_cel", "v_write_tilemap_cel", "v_tile_slice", "v_tilemap_tile", "v_is_visible", "k_mul_un8", "k_cels_table", "x_mode_table", "x_frames_vs_spec", "x_cel_order_irrelevant", "x_blend_public_api"],
      "The raw-cel rasteriser is proved FUNCTIONALLY correct by Verus for unbounded sizes (placement, clipping, row-major index, opacity product, blend call). mul_un8 == round8 and the cel table's storage-order independence are Kani contracts. frame_image / write_cel / is_visible glue and the dispatch table (Kani ICE, no dyn in Verus) are bounded stand-ins.")
 prop("C03", "proof", BLEND_LEAVES + BLEND_WRAPPERS + ["k_parse_blend_mode", "x_mode_table", "x_soft_light", "x_hsl_kernels", "x_blend_public_api"],
      "14 integer modes: leaves == Aseprite macros over their full domains, normal/merge == reference over all 2^72 inputs, every mode function == RGBA_BLENDER_N structure modulo callees (uninterpreted-function abstraction). soft light and the four HSL modes: integer skeleton proved, f64 kernels bounded-exec (soft light exhaustive over 65536 pairs).")
-prop("C04", "proof", ["v_compute_parents", "v_from_vec", "k_check_chunk_bytes", "k_scale_6bit", "k_parse_chunk_type", "k_parse_pixel_format"] + LAYER_DEC + TAGS_DEC + SLICE_DEC + PAL_DEC + EXT_DEC
+prop("C04", "proof", VDEC_IDS + ["v_compute_parents", "v_from_vec", "k_check_chunk_bytes", "k_scale_6bit", "k_parse_chunk_type", "k_parse_pixel_format"] + LAYER_DEC + TAGS_DEC + SLICE_DEC + PAL_DEC + EXT_DEC
      + TS_DEC + CEL_DEC + UD_DEC + CP_DEC + READER + ["k_tilemap_bits", "k_tile_parse", "k_cels_table", "v_ud_set_tag_user_data", "v_ud_add_user_data", "v_ud_add_cel", "v_cel_mut", "x_decoder_contracts", "x_total_load"],
      "Totality contracts: every Kani decoder harness also discharges the automatic no-panic / no-overflow / in-bounds checks for all contents of its payload size; Verus proves compute_parents and that from_vec establishes its precondition. Whole-load totality (glue, zlib, stack depth, allocation) is fault enumeration in an isolated child process.", level_note_extra="fault enumeration for the composition")
-prop("C05", "proof", ["v_write_raw_cel", "v_write_tilemap_cel", "v_tile_slice", "v_tilemap_tile", "v_tilemap_lookup", "v_tile_offsets", "v_is_visible", "v_pixels_per_tile", "k_validate_indexed", "k_indexed_as_rgba", "k_tileset_head_34", "k_tileset_head_44", "x_usable_after_load"],
+prop("C05", "proof", ["v_validate_indexed", "v_dec_tilemap", "v_dec_tileset", "v_write_raw_cel", "v_write_tilemap_cel", "v_tile_slice", "v_tilemap_tile", "v_tilemap_lookup", "v_tile_offsets", "v_is_visible", "v_pixels_per_tile", "k_validate_indexed", "k_indexed_as_rgba", "k_tileset_head_34", "k_tileset_head_44", "x_usable_after_load"],
      "Assume/guarantee: the renderers are proved panic-free under explicit preconditions R-pre (Verus, unbounded); that validation establishes R-pre for everything that loads is checked by fault enumeration: every loadable corrupted file is driven through every accessor.")
-prop("C06", "proof", ["v_cel_is_empty", "v_cel_frame", "v_cel_layer", "v_celsdata_cel"] + PIX + ["k_cel_chunk_15", "k_cel_chunk_17", "k_cel_chunk_18", "k_cel_raw_rgba_28", "k_cel_raw_gray_24", "k_cel_raw_indexed_23", "v_write_raw_cel", "x_frames_vs_spec", "x_roundtrip_structure", "x_neutral_encodings"],
+prop("C06", "proof", ["v_dec_cel", "v_dec_cel_content", "v_dec_cel_common", "v_dec_image_size", "v_pixel_count", "v_cel_is_empty", "v_cel_frame", "v_cel_layer", "v_celsdata_cel"] + PIX + ["k_cel_chunk_15", "k_cel_chunk_17", "k_cel_chunk_18", "k_cel_raw_rgba_28", "k_cel_raw_gray_24", "k_cel_raw_indexed_23", "v_write_raw_cel", "x_frames_vs_spec", "x_roundtrip_structure", "x_neutral_encodings"],
      "Pixel conversions proved for all values; cel header / raw payload decode on fixed sizes; placement + alpha scaling is the Verus rasteriser contract; zlib storage, linked cels and the transparent-index rule end-to-end are bounded-exec against the composition spec.")
 prop("C07", "exploration", ["k_parse_chunk_type", "k_layer_chunk_24", "k_tileset_head_44", "x_neutral_encodings", "x_cel_order_irrelevant"],
      "Mostly glue and zlib: bounded exploration over seeded models x ~30 encoding choices; contract part: ignorable chunk codes map to the three ignorable kinds (all u16), trailing payload bytes do not change a decoder's result (layer / tileset shapes with slack bytes).")
-prop("C08", "proof", ["k_tile_parse", "k_tile_bitmask_header", "k_tilemap_bits", "k_pixels_per_tile", "v_tilemap_tile", "v_tilemap_lookup", "v_tile_offsets", "v_tile_slice", "v_pixels_per_tile", "v_write_tilemap_cel", "x_tilemap_views"],
+prop("C08", "proof", ["v_dec_tilemap", "v_dec_bitmask", "v_dec_tileset", "k_tile_parse", "k_tile_bitmask_header", "k_tilemap_bits", "k_pixels_per_tile", "v_tilemap_tile", "v_tilemap_lookup", "v_tile_offsets", "v_tile_slice", "v_pixels_per_tile", "v_write_tilemap_cel", "x_tilemap_views"],
      "Tile word decode, tile lookup and tile slicing are contracts over unbounded sizes; the Tilemap / Tileset views need a loaded sprite and are compared with each other and with the model on seeded sprites.")
 prop("C09", "proof", ["v_compute_parents", "v_from_vec", "v_is_visible", "x_forest_exhaustive"],
      "compute_parents is proved by Verus on the real text for ALL layer sequences (any length, any depth) whose first level is 0 - the forests of the property are a subset; from_vec establishes that precondition; Layer::is_visible is proved equal to 'own flag and all ancestors' flags' for every table satisfying the parent contract. Layer::parent and the compositing gate are exhaustively executed for every forest of up to 6 (quick) / 8 (thorough) layers and every flag assignment.")
-prop("C10", "proof", UD_V + UD_DEC + ["x_decoder_contracts", "x_userdata_exhaustive", "x_roundtrip_structure"],
+prop("C10", "proof", UD_V + ["v_dec_userdata"] + UD_DEC + ["x_decoder_contracts", "x_userdata_exhaustive", "x_roundtrip_structure"],
      "The attachment rule is a Verus contract on the REAL ParseInfo methods (add_layer / add_cel / add_tags / add_slice / set_tag_user_data / add_user_data and CelsData::cel_mut, extracted each run): a record goes to the entity named by the current context and nothing else changes, for unbounded tables. What remains bounded is the glue in parse_frame that calls these methods per chunk kind (incl. the legacy-palette context and 'tags only in frame 0'): all admissible chunk sequences up to length 5 / 6 are executed against the rule written as a pure fold. The user-data chunk decoder is a Kani contract.")
-prop("C11", "proof", PAL_DEC + ["k_validate_indexed", "x_decoder_contracts", "x_palette_precedence", "x_indexed_needs_palette"],
+prop("C11", "proof", ["v_dec_palette", "v_palette_color", "v_validate_indexed", "v_scale_6bit"] + PAL_DEC + ["k_validate_indexed", "x_decoder_contracts", "x_palette_precedence", "x_indexed_needs_palette"],
      "6-bit scaling proved for all u8; palette chunk decoders against the layout on fixed sizes; pixel-index validation on a bounded shape; precedence between chunks and the load failure for incomplete palettes are bounded-exec.")
-prop("C13", "exploration", READER + ["k_check_chunk_bytes", "x_truncation"],
+prop("C13", "exploration", READER + ["k_check_chunk_bytes", "v_check_chunk_bytes", "v_dec_layer", "v_dec_tags", "v_dec_cel", "x_truncation"],
      "Reader primitives return an error value whenever fewer bytes remain than the field needs (contract, every position of a fixed-size cursor); that declared counts drive the reads is glue: every cut offset of generated and corpus files is executed.")
 prop("C14", "exploration", ["k_error_mapping", "k_reader_prims_6", "k_reader_sequence", "x_readers"],
      "Error mapping (io::Error -> IoError, source()) is a Kani contract; independence of reader behaviour is bounded-exec with scripted readers (short reads, Interrupted, BufReader, files) and a hard error of 6 kinds injected at byte offsets.")
-prop("C15", "proof", ["k_parse_pixel_format", "k_parse_layer_type", "k_parse_blend_mode", "k_parse_animation_direction", "k_parse_chunk_type", "k_cel_chunk_18", "k_cel_chunk_17", "k_tilemap_bits"] + CP_DEC + ["x_decoder_contracts", "x_refusals"],
+prop("C15", "proof", ["v_dec_colorprofile", "v_dec_cp_type", "v_dec_tilemap", "v_dec_cel_content", "v_dec_layer_type", "v_dec_blend_mode", "v_dec_anim_dir", "v_dec_layer", "v_dec_tags", "k_parse_pixel_format", "k_parse_layer_type", "k_parse_blend_mode", "k_parse_animation_direction", "k_parse_chunk_type", "k_cel_chunk_18", "k_cel_chunk_17", "k_tilemap_bits"] + CP_DEC + ["x_decoder_contracts", "x_refusals"],
      "Every refusal that is a branch of a contracted function is proved over the whole code domain (colour depth, layer type, blend mode, animation direction, cel type, chunk type, colour profile type/flags, bits per tile); the pixel-ratio rule and 'tileset without pixels' sit in glue and are bounded-exec at every position.")
 prop("C16", "other", ["s_send_sync", "x_determinism", "v_write_raw_cel", "v_write_tilemap_cel", "v_tile_slice", "v_pixels_per_tile", "v_compute_parents", "k_mul_un8", "k_blend8", "k_merge", "k_normal_r", "k_normal_g", "k_normal_b", "k_pixel_count", "k_pixels_per_tile"],
      "(a) Send + Sync: discharged by rustc's trait solver. (b) no result depends on wrapping arithmetic: the overflow obligations of the Verus units (unbounded) and of the Kani blend leaves. (c) determinism / repeat / permute / 16 threads: sanity stand-in only - interleavings are NOT explored (Kani has no threads; Verus would need its permission types in the real code); the schedule quantifier rests on Rust's Sync + &self guarantee.")
